@@ -1678,6 +1678,40 @@ class FnTranslator:
                     ev = EigVal(tgt.st, tgt.rows, tgt.cols, lambda i, j: ('const', tgt.st, c))
                 self.rule('eigen: %s()' % nm)
                 return self.flush() + self.eig_store(tgt.lv, ('eig', tgt.st, tgt.rows, tgt.cols), ev)
+        if k == 'CXXMemberCallExpr':
+            me = self.callee_decl(n0)
+            if me.get('kind') == 'MemberExpr' and me.get('name') == 'rankUpdate':
+                # M.selfadjointView<Lower|Upper>().rankUpdate(U): documented semantics: the referenced triangle of M += U * U^T (the other
+                # triangle is not touched)
+                view = self.strip(self.inner(me)[0])
+                while view['kind'] in ('ImplicitCastExpr', 'MaterializeTemporaryExpr', 'CXXBindTemporaryExpr') and self.inner(view):
+                    view = self.strip(self.inner(view)[0])
+                vme = self.callee_decl(view) if view['kind'] == 'CXXMemberCallExpr' else {}
+                margs = self.inner(n0)[1:]
+                margs = [a for a in margs if self.strip(a)['kind'] != 'CXXDefaultArgExpr']      # rankUpdate(u, alpha = 1)
+                if vme.get('name') == 'selfadjointView' and len(margs) == 1:
+                    q = node_type(view)
+                    mm = re.search(r'SelfAdjointView<.*,\s*(\d+)U?>', q)
+                    uplo = int(mm.group(1)) if mm else None
+                    if uplo not in (1, 2):
+                        self.err(n0, 'selfadjointView: cannot read the triangle from %s' % q[:80])
+                    tgt = self.eig(self.inner(vme)[0])
+                    U = self.eig(margs[0])
+                    if tgt.lv is None or tgt.rows != tgt.cols or U.rows != tgt.rows:
+                        self.err(n0, 'rankUpdate shape')
+                    st = tgt.st
+                    out, names = [], []
+                    cells = [(i, j) for i in range(tgt.rows) for j in range(tgt.cols) if (i >= j if uplo == 1 else i <= j)]
+                    for i, j in cells:
+                        acc = tgt.get(i, j)
+                        for kk in range(U.cols):
+                            acc = ('bin', '+', acc, ('bin', '*', U.get(i, kk), U.get(j, kk), st), st)
+                        nm = self.tmp(st); names.append(nm)
+                        out.append(('decl', nm, st, acc))
+                    for (i, j), nm in zip(cells, names):
+                        out.append(('assign', ('elem', tgt.lv, i * tgt.cols + j, st), ('var', nm, st)))
+                    self.rule('eigen: selfadjointView<%s>().rankUpdate(U): that triangle += U U^T' % ('Lower' if uplo == 1 else 'Upper'))
+                    return self.flush() + out
         if k in ('CallExpr', 'CXXMemberCallExpr', 'CXXOperatorCallExpr'):
             e = self.expr(n0, want_value=False)
             pre = self.flush()
@@ -2981,7 +3015,13 @@ class FnTranslator:
         if name == 'solve' and o0['kind'] == 'CXXMemberCallExpr' and self.callee_decl(o0).get('name') in ('ldlt', 'llt', 'partialPivLu', 'fullPivLu', 'colPivHouseholderQr'):
             # A.ldlt().solve(B): ASSUMED contract of the decomposition: the result X satisfies A X = B, i.e. X = A^-1 B, written with the
             # adjugate over the determinant for a 2x2 / 3x3 A (the division carries the obligation det A != 0)
-            A = self.eig(self.inner(self.callee_decl(o0))[0])
+            A0 = self.eig(self.inner(self.callee_decl(o0))[0])
+            if self.callee_decl(o0).get('name') in ('ldlt', 'llt'):
+                # Eigen's LDLT / LLT of a plain matrix read its lower triangle only (UpLo = Lower): the decomposed matrix is the
+                # symmetric matrix with that lower triangle
+                A = EigVal(A0.st, A0.rows, A0.cols, lambda i, j: A0.get(max(i, j), min(i, j)))
+            else:
+                A = A0
             Bm = self.eig(args[0])
             nn = A.rows
             if A.rows != A.cols or nn not in (2, 3) or Bm.rows != nn:
@@ -3156,6 +3196,10 @@ class FnTranslator:
                 R, C = (idx[1], 1) if vec_col else (1, idx[1]); idx = idx[:1]
             elif name == 'block' and len(idx) == 4:
                 R, C = idx[2], idx[3]; idx = idx[:2]
+            elif name in ('topRows', 'bottomRows') and len(idx) == 1:
+                R, C = idx[0], a.cols; idx = []
+            elif name in ('leftCols', 'rightCols') and len(idx) == 1:
+                R, C = a.rows, idx[0]; idx = []
             else:
                 self.err(n, 'dynamic block')
             self.rule('eigen: run-time sized block with compile-time constant size arguments')
